@@ -90,7 +90,7 @@ func buildFlattenRuns(tier string, seed int64, scratch string, which string) ([]
 			sets = append(sets, flattenOpts{KeepNames: true}, flattenOpts{Minimal: true, KeepNames: true, RemoveUnused: true})
 		}
 		for j, o := range sets {
-			args := flattenArgs{Opts: o, InW: inW(b.Feat, o), Second: !o.Expand, Rerun: o.Expand, Getters: true}
+			args := flattenArgs{Opts: o, InW: inW(b.Feat, o), Second: !o.Expand, Rerun: o.Expand, Getters: true, Phases: true}
 			runs = append(runs, &flattenRun{c: c, args: args, tid: fmt.Sprintf("%so%d", c.Tid, j)})
 		}
 	}
@@ -138,6 +138,7 @@ func runFlattenCampaign(tier string, seed int64) (*flattenCampaign, error) {
 			// synthesize a record so that TLC gives the C09 / C04 verdict
 			rec := &flattenRec{Tid: fc.runs[i].tid, Mode: fc.runs[i].args.Opts.Mode(), RU: fc.runs[i].args.Opts.RemoveUnused, InW: fc.runs[i].args.InW,
 				Bundle: map[string]*Node{"root": NewNode()}, Doc: NewNode(), Doc2: NewNode(), XKeys: []string{}, Fold: map[string]string{}, Crash: r.Crash,
+				Phases: []phaseSnap{}, Events: []stepEvent{},
 				Err: "crash: " + r.Crash, Getters: emptyFull(), Fresh: emptyFull()}
 			b, _ := json.Marshal(rec)
 			recs = append(recs, b)
